@@ -389,9 +389,20 @@ def gen_schemalevels(repo):
             raise Unsupported(f"{fname}: the test no longer increments max_level ({body})")
         op = "==" if isinstance(t.ops[0], ast.Eq) else "!="
         return f"rt {op} {code[name]}", ifs[0].lineno
-    rq, l1 = test_of("is_required", "false")
-    rp, l2 = test_of("max_repetition_level", "inc")
-    df, l3 = test_of("max_definition_level", "inc")
+    # The driver imports this module (stream nested.levels), so it must always compile: a function whose shape is not
+    # recognised gets the test `false` and `recognised := false`, which fails `level_tests_now` and the correspondence
+    # while the rest of the check (certified nested files on the real code) keeps running.
+    notes = []
+
+    def soft(fname, effect):
+        try:
+            return test_of(fname, effect)
+        except Unsupported as e:
+            notes.append(str(e))
+            return "false", 0
+    rq, l1 = soft("is_required", "false")
+    rp, l2 = soft("max_repetition_level", "inc")
+    df, l3 = soft("max_definition_level", "inc")
     return ("-- REGENERATED on every run by tools/translate_callsites.py from fastparquet/schema.py — do not edit\n"
             "namespace PqV.Gen.SchemaLevels\n"
             "/-! repetition types: REQUIRED = 0, OPTIONAL = 1, REPEATED = 2 -/\n"
@@ -401,6 +412,8 @@ def gen_schemalevels(repo):
             f"def repTest (rt : Nat) : Bool := {rp}\n"
             f"/-- `max_definition_level` (line {l3}): a path element for which this holds adds a definition level -/\n"
             f"def defTest (rt : Nat) : Bool := {df}\n"
+            f"/-- every function had the shape the translator knows{'' if not notes else ' — NOT SO: ' + '; '.join(notes).replace(chr(10), ' ')[:300]} -/\n"
+            f"def recognised : Bool := {'true' if not notes else 'false'}\n"
             "def isRequired (path : List Nat) : Bool := path.all (fun rt => !reqTest rt)\n"
             "def maxRep (path : List Nat) : Nat := (path.filter repTest).length\n"
             "def maxDef (path : List Nat) : Nat := (path.filter defTest).length\n"
